@@ -5,7 +5,7 @@ python3 - "$@" <<'PY'
 import json, subprocess, sys, os, re
 meta = json.load(open('mutants/meta.json'))
 names = sys.argv[1:] or sorted(meta)
-res = {}
+res = json.load(open('mutants/results.json')) if os.path.exists('mutants/results.json') and sys.argv[1:] else {}
 for n in names:
     m = meta[n]
     out = subprocess.run(['tools/tryseed.sh', f'mutants/{n}.diff'] + m['expected'], env=dict(os.environ, SKIP_SUITE='1'), capture_output=True, text=True).stdout
